@@ -481,6 +481,11 @@ fn open_slots<const P1: bool, const P2: bool, const B1: bool, const B2: bool>() 
     assert!(header_matches(&out.header, &expect));
     assert!(out.infos_to_flush.is_empty());
     assert!(out.entries.is_none());
+    // the header-bit state the JS rule derives: both slots -> their bits; only slot 0 -> [b, b]
+    // (slot 0 current, entries carry bit 0); only slot 1 -> [!b, b] (slot 1 current, entries carry
+    // bit 1).  It decides which pending entries are replayed and which slot the next flush rewrites.
+    let bits = if P1 && P2 { [B1, B2] } else if P1 { [B1, B1] } else { [!B2, B2] };
+    assert!(out.oplog.header_bits[0] == bits[0] && out.oplog.header_bits[1] == bits[1]);
     kani::cover!(true, "reached end");
     std::mem::forget(out);
 }
@@ -570,10 +575,19 @@ fn open_entries_phase<const N: usize, const PHASE: u8>(specs: &[EntrySpec], tail
         1 => (true, true, true),
         2 => (true, false, true),
         3 => (false, true, true),
+        5 => (false, true, false), // slot 0 torn, slot 1 valid with bit 1
+        6 => (true, false, false), // slot 0 torn, slot 1 valid with bit 0
         _ => (false, false, true),
     };
-    let current = both && b0 != b1;
-    if !both {
+    let torn0 = PHASE == 5 || PHASE == 6;
+    let current = torn0 || (both && b0 != b1);
+    if torn0 {
+        // a header write into slot 0 that stopped after 60 bytes (checksum cannot match), slot 1
+        // holds the valid header: the JS rule makes slot 1 the current one, entries carry bit 1
+        ref_header_at(&mut w, 0, &base_header(0), b0);
+        torn_header_zero(&mut w.buf, 60, 300);
+        ref_header_at(&mut w, 4096, &base_header(1), b1);
+    } else if !both {
         ref_header_at(&mut w, 0, &base_header(1), b0);
     } else if b0 == b1 {
         ref_header_at(&mut w, 0, &base_header(1), b0);
@@ -611,6 +625,14 @@ fn open_entries_phase<const N: usize, const PHASE: u8>(specs: &[EntrySpec], tail
     kani::cover!(true, "reached end");
     std::mem::forget(entries);
     std::mem::forget(out);
+}
+
+fn torn_header_zero(buf: &mut [u8], from: usize, to: usize) {
+    let mut z = from;
+    while z < to {
+        buf[z] = 0;
+        z += 1;
+    }
 }
 
 macro_rules! entries_harness {
@@ -651,6 +673,10 @@ entries_phase_harness!(c02_open_phase_tt, 1);
 entries_phase_harness!(c02_open_phase_tf, 2);
 entries_phase_harness!(c02_open_phase_ft, 3);
 entries_phase_harness!(c02_open_phase_ff_both, 4);
+// the header write into slot 0 was torn, slot 1 holds the valid header: slot 1 is current, the
+// pending entry carrying bit 1 is replayed, the stale one dropped, the log continues with bit 1
+entries_phase_harness!(c07_open_slot0_torn_slot1_bit1, 5);
+entries_phase_harness!(c07_open_slot0_torn_slot1_bit0, 6);
 // a finished batch: partial, partial, final -> all three kept
 entries_harness!(c06_open_finished_batch, { 8192 + 3 * C_SZ }, [EntrySpec { kind: 1, bit: false, partial: true }, EntrySpec { kind: 1, bit: false, partial: true }, EntrySpec { kind: 1, bit: false, partial: false }], 0, 3);
 
